@@ -49,6 +49,23 @@ CLAIMED.update({
  'C17': ('6/C17', 'Generated programs move BC/DE/HL/SP through FE00-FEFF after the guest switches the LCD off at every cycle offset of a line / in every mode, or (LCD on) synchronised by polling to VBlank or mode 3; OAM peeked at every instruction boundary must equal the lock-step shadow OAM unless the reference LCD timing was in mode 2 with the LCD on during the instruction.',
          TB+'No DMA in these programs; one boundary of slack around mode 2.', 'deterministic simulation: guest/PPU phase sweep with lock-step shadow OAM'),
 })
+
+CLAIMED.update({
+ 'C15': ('6/C15', 'Random scenes within the statement restrictions (tile data, both maps, both addressing modes, scroll, window anywhere, 0-40 objects incl. partly outside each edge and lines holding exactly ten, flips, palettes, priorities) rendered by the real PPU inside the real frame loop with the LCD switched on at a random cycle of the loop, 2-4 frames, CPU parked or busy; all 23,040 pixels of the frame handed to the simulated display compared with a reference compositor.',
+         TB+'Weak fit, said in DESIGN: the simulator contributes the phase between LCD switch-on, frame loop and display hand-over; the scene->pixel map is generated input. Shade RGB values are learnt per frame and must be consistent, grey and ordered.', 'deterministic simulation (weak fit): frame hand-over phase sweep + reference compositor'),
+ 'C18': ('6/C18, A.7', 'Histories of writes of arbitrary values to FF10-FF3F and NR52 power toggles interleaved with machine cycles while the sound unit runs; all registers, NR52 and (channel 3 off) wave RAM read back after every operation and elapsed span against the reference register file.',
+         TB+'NR52 bits 0-3 belong to C19; wave RAM is re-baselined after writes/retriggers while channel 3 plays.', 'deterministic simulation: register-write histories with power toggles vs reference register file'),
+ 'C19': ('6/C19, A.7', 'Triggers, length writes, DAC and power toggles placed at every phase of the frame sequencer (uniform and within 2 cycles of a step), runs of up to three emulated seconds; the sequencer grid is calibrated per run by observation, then the reference status/length/sweep model steps every 2048 cycles and NR52 is compared after every machine cycle; directed full-length runs.',
+         TB+'The NR10 negate-clear quirk is not in the statement and is kept out of the schedules.', 'deterministic simulation: event placement over frame-sequencer phases vs reference length/status model (per-cycle)'),
+ 'C20': ('6/C20', 'Simulated audio consumer: per-cycle drain with cycle stamps (95-clock grid between re-phasings, L/R pairing, 44,149-44,150 pairs per second, none while off, range, zero when nothing routed); slow consumer with capacity 1-64 and burst reads while the emulator runs its own Run loop in a goroutine and really blocks (stream equality with the prompt consumer); paired runs differing only in an unrouted channel.',
+         TB+'A once-per-second re-phasing gap of 96-189 clocks is accepted (the statement gives two incompatible figures).', 'deterministic simulation: simulated consumer with back-pressure/stall faults + history checks on the sample stream'),
+ 'C21': ('6/C21', 'Waveform step counts over windows of whole periods for sampled (quick) or all (thorough) frequencies of channels 1-3, cycles between shift-register clocks for NR43 values, output sequence period 32767/127 and no shorter, while other channels are triggered at random cycles.',
+         TB+'Weak fit, said in DESIGN: clock-only; positions read through the verif accessor.', 'deterministic simulation (weak fit): period measurement on the simulated clock with cross-channel interference'),
+ 'C22': ('6/C22', 'Random walks of key down/up events delivered through the simulated display seam interleaved with JOYP writes and reads at arbitrary cycles against a reference joypad; all 576 reachable (select, directions, buttons) states are reached in the quick budget (reported).',
+         TB+'Weak fit, said in DESIGN; BFS named in the quantifier is model checking and is not done.', 'deterministic simulation (weak fit): user-input event walks vs reference joypad'),
+ 'C23': ('6/C23', 'Generated programs interleaving SB/SC writes (all store forms) with DMA starts, timer/LCD/sound pokes and interrupt dispatch, with and without a writer; blargg ROMs as guests with SB writes snooped at instruction boundaries; the recorded writer history must equal the written sequence exactly once, in order, nothing else; SB/SC read FF.',
+         TB+'Writer errors are not injected (panic by design, statement silent).', 'deterministic simulation: recorded serial history vs guest write sequence (exactly-once, in-order)'),
+})
 NOT_YET = 'check not built yet in this session; planned in DESIGN.md section 6 (will be claimed when its simulator scenario class and oracle exist)'
 NOT_APPLICABLE = {}
 
